@@ -350,7 +350,7 @@ def execute(prop, tier, seed):
         for v in a["violations"]:
             per_root.setdefault(t["root"], []).append(("violation", name, v, {"fn": t["fn"], "args": t.get("args", []), "inputs": v["inputs"], "tree": t.get("tree")}))
         for mdl, c in zip(a["models"], a["concrete"]):
-            per_root.setdefault(t["root"], []).append(("model", name, (mdl, c), {"fn": t["fn"], "args": t.get("args", []), "inputs": mdl}))
+            per_root.setdefault(t["root"], []).append(("model", name, (mdl, c), {"fn": t["fn"], "args": t.get("args", []), "inputs": mdl, "tree": t.get("tree")}))
     witnesses = {}
     for root, items in per_root.items():
         res, info, err = native_batch(root, harness, [it[3] for it in items])
@@ -387,6 +387,17 @@ def execute(prop, tier, seed):
                     if len(run.samples) < 12:
                         run.samples.append({"job": name, "fn": req["fn"], "args": req["args"], "path_model_inputs": mdl,
                                             "native": "ok", "observations": nat.get("observations", [])[:6]})
+                elif nat.get("status") in ("check", "uncaught") and conc.get("status") == "ok" and not nat.get("random_contract_broken"):
+                    # the REAL code fails a harness obligation on an input the solver produced, while the interpreter's
+                    # model of the environment (enum machinery, codecs, ...) satisfies it: a genuine, natively
+                    # reproduced counterexample that lives in a part of the environment the encoding abstracts
+                    v = {"kind": nat["status"], "label": nat.get("label", ""), "inputs": mdl,
+                         "found_by": "native replay of a solver path model (the interpreter's environment model satisfied the obligation)"}
+                    k = match_known(pid, name, v, known)
+                    if k is not None:
+                        run.known_hits.append((k, name, v))
+                    else:
+                        run.violations.append((name, v, req, nat))
                 else:
                     run.problem(f"SELF-CHECK-MISMATCH job {name}: inputs={json.dumps(mdl)[:300]} native={nat.get('status')} "
                                 f"{nat.get('label', '')} {nat.get('message', '')} interp-concrete={conc.get('status')} {conc.get('label', '')} {conc.get('note', '')}"
